@@ -162,7 +162,6 @@ def birkhoffExpSorted (detF : Mat F → F) (xs : List F) (js : List Nat) (ys : L
   let a := birkhoffMatrix xs js n
   let den := detF a
   if den = 0 then .error "err:failed" else
-  if n ≤ 1 then .error "err:dim" else   -- `Minor` is undefined for a 1×1 matrix
   let denInv := den⁻¹
   .ok ((List.range n).map fun c =>
     let cof : List F := (List.range n).map fun r =>
